@@ -84,7 +84,8 @@ Qed.
 
 Lemma doc_line_stP : stP doc_line.
 Proof.
-  intros st i st' i' E Hst. rewrite doc_line_eq in E. binds E. apply peek_ok in E0 as (-> & _).
+  intros st i st' i' E Hst. rewrite doc_line_eq in E. apply bind_ok in E as (b & j & E0 & E).
+  apply bind_ok in E as (st1 & j1 & E1 & E). apply peek_ok in E0 as (-> & _).
   eapply parse_ws_stP; [exact E|]. eapply doc_item_stP; eauto.
 Qed.
 
